@@ -8,6 +8,12 @@ C10 — dictionaries use the canonical TON Hashmap encoding; parsers accept ever
 (d) HashmapAug(E): leaves equal, extras compared as a multiset (their order is not promised).
 (e) pruning: edges replaced by pruned-branch cells => every reader returns exactly the leaves (and extras) of the
     non-pruned part, without raising.
+(f) callbacks that call the library again: the x / y deserializers of an augmented walk, the value / key deserializers of a plain
+    one parse ANOTHER dictionary (augmented or plain, through parse_hashmap_aug / load_hashmap_aug / load_hashmap_aug_e /
+    parse_hashmap / load_hashmap / load_dict) hanging in the leaf value, in the augmentation value of leaves and forks, or both -
+    the shape of ShardAccountBlocks / AccountBlock.transactions; optionally after an earlier walk over the same cell that a raising
+    callback aborted at its k-th call; and for (b) a value writer that serialises another HashMap (map of maps), twice.
+    In (c)/(e) the raw results (value slices) are also printed (describe/look) before they are read.
 Not asserted: order of extras; behaviour on a wholly pruned root; invalid encodings.
 """
 import hashlib
@@ -20,7 +26,9 @@ from harness.ref import refdict, refcell as rc
 RULE = ('(a) case = (max_len, len, fill) enumerated exhaustively (quick: max_len 0..80 and 127,128,255,256,267,511,512,1022,1023; '
         'thorough: all 0..1023, 1 574 400 triples); (b)-(e) case = key width, key set, value bits, per-edge label-kind choices, '
         'prune selectors. non-trivial = (a) len >= 1; (b)-(e) tree with >= 2 label kinds or a non-canonical kind or a pruned '
-        'subtree or an augmented tree; distinct = distinct case')
+        'subtree or an augmented tree; distinct = distinct case. (f) case = outer width + key set, inner width + 1-3 inner key sets, '
+        'outer / inner kind (aug | plain), where the inner dictionary hangs (x | y | xy), inner entry point 0..2, label-kind choices, '
+        'optional abort index of an earlier walk')
 ASSUMPTIONS = ['refdict.py transcription of dict.cpp append_dict_label(_same) (agrees with the hash pinned in tests/test_hashmap.py)',
                'refcell.py for hashes']
 
